@@ -176,14 +176,6 @@ func UnmarshalOutcome(ti gocql.TypeInfo, data []byte) (term string, pn *Panic) {
 	return "(Ok tt)", nil
 }
 
-func init() {
-	siteOf["unmarshalList"] = "CListNeg"
-	siteOf["unmarshalDate"] = "CDateShort"
-	siteOf["(*typeParser).parseParamNodes"] = "CTypeIdx"
-	siteOf["(*typeParser).parse"] = "CTypeParams"
-	siteOf["(*typeParserClassNode).asTypeInfo"] = "CTypeParams"
-}
-
 // ---- type strings ------------------------------------------------------------------------------
 
 func GetTypeOutcome(name string) (term string, pn *Panic) {
@@ -210,10 +202,6 @@ func ParseTypeOutcome(def string) (term string, pn *Panic) {
 	defer func() {
 		if r := recover(); r != nil {
 			p := Classify(r)
-			// a nil-pointer dereference in parse is the unnamed collection parameter, an index error the short list
-			if p.Func == "(*typeParser).parse" && strings.Contains(p.Value, "nil pointer") {
-				p.Site = "CTypeNilName"
-			}
 			term, pn = "(Crash "+p.Site+")", &p
 		}
 	}()
